@@ -165,6 +165,31 @@ def explicitRange (rep : List Sx) (lv : List (List FObs)) : Bool :=
   (lv.zip rep).any (fun p => p.1.any (fun f => !(f.lo == Sx.n 0 && f.hi == p.2) &&
     !(f.coords.isEmpty && p.2 == Sx.n 0)))
 
+def sxInt? : Sx → Option Int
+  | .n v => some v
+  | _ => none
+
+/-- the final loop of `swizzleRanks`: every rebuilt fiber of the `swiz_len` re-arranged levels must
+    carry the range `swizReset` computes from the operand's ranges of that rank — or, for a fiber the
+    loop skips (`fiber.isEmpty()`, or below a skipped one), no explicit range: `(0, shape)`.
+    Returns the levels at which an observed range is neither. -/
+def swizzleRangeMismatch (order : List RId) (src res : TObs) : List String :=
+  if src.mt.ids = order then [] else
+  let n := swizLen src.mt.ids order
+  ((res.levels.take n).zipIdx).flatMap (fun q =>
+    let j := q.2
+    let g := src.mt.ids.idxOf (order.getD j default)
+    let ranges := ((src.levels.getD g []).filter (fun f => !f.coords.isEmpty)).filterMap (fun f =>
+      match sxInt? f.lo, sxInt? f.hi with | some a, some b => some (a, b) | _, _ => none)
+    let bad := q.1.any (fun f =>
+      match f.coords.mapM sxInt?, sxInt? f.lo, sxInt? f.hi with
+      | some cs, some lo, some hi =>
+        if cs.isEmpty then false else
+        let plain := decide (lo = 0) && (some hi == (res.rep.getD j default |> sxInt?))
+        !(swizReset ranges cs == some (lo, hi)) && !plain
+      | _, _, _ => false)
+    if bad then [s!"reset@{j}"] else [])
+
 def handleXf (j : Json) : Except String Verdict := do
   let impl ← field j "impl"
   if (optField impl "pre_err").isSome then
@@ -203,9 +228,10 @@ def handleXf (j : Json) : Except String Verdict := do
   | none =>
     let res ← parseTObs resJ
     let cmpShapeAgree := srcAuth || op.name == "swap" || op.name == "unflatten"
-    let agree := match model with
+    let resetBad := if op.name == "swizzle" then swizzleRangeMismatch op.order src res else []
+    let agree := (match model with
       | some m' => (metaDiff cmpShapeAgree m' res.mt).isEmpty
-      | none => false
+      | none => false) && resetBad.isEmpty
     let metaFails := match spec with
       | some s' => metaDiff srcAuth s' res.mt
       | none => ["spec-undefined"]
@@ -213,7 +239,8 @@ def handleXf (j : Json) : Except String Verdict := do
     let bfails := if srcOk then boundsFailures res.rep res.levels else []
     let fails := metaFails ++ bfails
     pure { agree, spec := fails.isEmpty, model := optMetaJson model,
-           tags := tags0 ++ (if srcOk then [] else ["src-out-of-bounds"]) ++ fails.map (fun f => "fail:" ++ f),
+           tags := tags0 ++ (if srcOk then [] else ["src-out-of-bounds"]) ++ fails.map (fun f => "fail:" ++ f) ++
+                   resetBad.map (fun f => "disagree:" ++ f),
            why := ",".intercalate fails }
 
 /-! ### constructors -/
